@@ -159,6 +159,20 @@ fn plants(rng: &mut Rng, per_cell: usize) -> Vec<Plant> {
     for (c, s) in items {
         v.push(Plant { construct: c, position: "item", depth: 0, skip: 0, source: format!("{BACKGROUND}{s}"), skippable: false });
     }
+    // the annotation on the victim is spelled like users spell it: bare, through its crate path, with arguments
+    for (i, p) in v.iter_mut().enumerate() {
+        let victim = &p.source[BACKGROUND.len()..];
+        if let Some(rest) = victim.strip_prefix("#[typeshare]\n") {
+            let spelled = match i % 7 {
+                3 => "#[typeshare::typeshare]\n",
+                4 => "#[::typeshare::typeshare]\n",
+                5 => "#[typeshare(swift = \"Equatable\")]\n",
+                6 => "#[typeshare::typeshare(redacted)]\n",
+                _ => continue,
+            };
+            p.source = format!("{BACKGROUND}{spelled}{rest}");
+        }
+    }
     v
 }
 
